@@ -42,7 +42,7 @@ int main(void) {
             scanf("%d", &k);
             for (i = 0; i < k; i++) { scanf("%d", &dc[i]); delim[i] = (char)enc(dc[i]); wdelim[i] = (wchar_t)enc(dc[i]); }
             delim[k] = 0; wdelim[k] = 0;
-            h_n = 0; errno = 0; h_fault_kind = 0;
+            h_n = 0; errno = H_ERRNO_PRE(eid); h_fault_kind = 0;
             if (!sigsetjmp(h_jb, 1)) {
                 h_armed = 1; alarm(3);
                 if (w == 1) ret = _strtok_s_chk(c == 0 ? buf : NULL, &dm, delim, &ptr, BOSU);
